@@ -47,11 +47,37 @@ Definition set_enc (k : tkind) (tls_ok : bool) (cur e : string) : bool * string 
   | TTcp cfg =>
       if String.eqb e cur then (true, cur)
       else if String.eqb e "none" then (false, cur)          (* cannot downgrade *)
-      else if String.eqb e "tls" && negb cfg then (false, cur) (* tls config must be defined *)
+      else if negb (String.eqb e "tls") then (false, cur)    (* an encryption the transport does not know *)
+      else if negb cfg then (false, cur)                     (* tls config must be defined *)
       else if tls_ok then (true, "tls") else (false, cur)    (* in-place TLS handshake *)
   | TWs _ => (String.eqb e cur, cur)
   | TInproc => (false, cur)
   end.
+(* the tree as found: a request for anything but "none" and the current value ran the TLS handshake *)
+Definition set_enc_as_found (k : tkind) (tls_ok : bool) (cur e : string) : bool * string :=
+  match k with
+  | TTcp cfg =>
+      if String.eqb e cur then (true, cur)
+      else if String.eqb e "none" then (false, cur)
+      else if String.eqb e "tls" && negb cfg then (false, cur)
+      else if tls_ok then (true, "tls") else (false, cur)
+  | _ => set_enc k tls_ok cur e
+  end.
+(* a successful switch leaves exactly the requested option in force *)
+Lemma set_enc_ok_is_requested k t cur e enc' : set_enc k t cur e = (true, enc') -> enc' = e.
+Proof.
+  destruct k as [cfg|tls|]; unfold set_enc; intros H.
+  - destruct (String.eqb_spec e cur) as [->|N]; [inversion H; reflexivity|].
+    destruct (String.eqb e "none"); [discriminate|].
+    destruct (String.eqb_spec e "tls") as [->|N2]; cbn in H; [|discriminate].
+    destruct cfg; cbn in H; [|discriminate]. destruct t; inversion H; reflexivity.
+  - destruct (String.eqb_spec e cur) as [->|N]; inversion H; reflexivity.
+  - discriminate.
+Qed.
+Lemma set_enc_as_found_takes_unknown_for_tls :
+  set_enc_as_found (TTcp true) true "none" "rot13" = (true, "tls").
+Proof. reflexivity. Qed.
+
 Definition set_comp (k : tkind) (cur c : string) : bool :=
   match k with
   | TWs _ => String.eqb c cur
